@@ -76,6 +76,10 @@ ATOMS = [b"\\", b"/", b"@", b":", b"#", b"?", b".", b"..", b"%2e", b"%2E", b"%40
          b"\"", b"^", b"|", b"{", b"}", b"`", b"a", b"Z", b"0", b"evil.example", b"example.com", b"xn--"]
 
 
+DENSE = [b"h", b"t", b"p", b"s", b":", b"/", b"\\", b"@", b"[", b"]", b"%", b"2", b"5", b"e", b".", b"a", b"?", b"#", b" ", b"\t",
+         b"\xc3\xa9", b"\x80", b"example.com", b".example.com", b"%25", b"%e9", b"%3A", b":80", b"-", b"Z", b"*", b"+", b"<", b"^"]
+
+
 def legit_host(rng, d):
     if d == b"example.org" and rng.random() < 0.6:
         d = b"example.org."            # client "odd" is configured with the trailing dot
@@ -116,6 +120,14 @@ def gen(rng, n):
     out = list(CORPUS)
     seen = set(out)
     while len(out) < n:
+        if rng.random() < 0.12:
+            # dense strings over the delimiters of both parsers: mostly aimed at goParse vs url.Parse
+            s = b"".join(rng.choice(DENSE) for _ in range(rng.randrange(0, 10)))
+            s = rng.choice([b"https://", b"https://", b"https://", b"https:", b"https://[", b"https://www.example.com", b""]) + s
+            if s not in seen:
+                seen.add(s)
+                out.append(s)
+            continue
         if rng.random() < 0.45:
             # a well-formed URL with exactly one part taken from the adversarial lists
             parts = [b"https", b"://", rng.choice([b"", b"", b"", b"user@", b"u:p@"]), legit_host(rng, rng.choice(DOMS)),
@@ -254,7 +266,7 @@ def run(ctx):
                 ctx.broken.append("authorize handler status %s, expected %s for client %s url %r" % (status, exp, nm, u))
         if status == "302":
             nredir += 1
-            jops.append("loc %s %s %s" % (nm, c.hexs(u), loc))
+            jops.append("loc %s %s %s %s" % (nm, c.hexs(u), loc, parsed[urlidx[u]][2]))
             jown.append((u, nm, "authorize handler Location %r" % c.unhexs(loc)[:120]))
         elif loc != "-":
             ctx.broken.append("authorize handler status %s carries a Location for %r" % (status, u))
